@@ -87,15 +87,16 @@ Theorem C17_sequential_runs_meet_spec : forall s0 cat os s insts,
 Proof. intros s0 cat os s insts. exact (run_ops_spec generated_table effects_read_only s0 cat os s insts). Qed.
 Print Assumptions C17_sequential_runs_meet_spec.
 
-(** finding C17-F1 (repaired by fix: commit 13721c3), as it was at the pinned revision: with the
-    effects the translator then extracted for jwtAuthenticator.Execute (stores of
-    MetadataEndpoint.init) the table check fails, two concurrent executions of the prototype
-    race and the shared prototype changes *)
+(** finding C17-F1 (repaired by fix: commit 13721c3), as it was at the pinned revision: [f1_row] is the row the
+    translator then extracted for jwtAuthenticator (Execute reaches the stores of MetadataEndpoint.init).  For the
+    table consisting of that row the check [forallb row_ok] fails, and in the model two concurrent executions of
+    the prototype race and the shared prototype changes.  (Documentation of the repaired defect; no statement about
+    today's tree.) *)
 Theorem C17_F1_pinned_refuted :
-  exists tbl s0 cat,
-    catalogue_ok s0 cat /\ (forall p, In p cat -> has_row tbl p) /\ forallb row_ok tbl = false /\
-    (exists c, steps tbl (init s0 cat) c /\ race c) /\
-    (exists c p, steps tbl (init s0 cat) c /\ In p cat /\ view (c_store c) p <> view s0 p).
+  forallb row_ok [f1_row] = false /\
+  catalogue_ok [0%Z] [f1_proto] /\ has_row [f1_row] f1_proto /\
+  (exists c, steps [f1_row] (init [0%Z] [f1_proto]) c /\ race c) /\
+  (exists c, steps [f1_row] (init [0%Z] [f1_proto]) c /\ view (c_store c) f1_proto <> view [0%Z] f1_proto).
 Proof. exact F1_pinned_refuted. Qed.
 Print Assumptions C17_F1_pinned_refuted.
 
